@@ -89,9 +89,22 @@ def el_exhaustive(maxlen):
 
 
 def el_random(R, count, maxlen=60):
-    for _ in range(count):
+    for i in range(count):
         n = R.randint(5, maxlen)
         ab = []
+        if i % 4 == 3:
+            # deep queue: many pending events with unrelated due times, zero-delay requests in between, then a full drain
+            for _ in range(R.randint(maxlen, 3 * maxlen)):
+                x = R.random()
+                if x < 0.65:
+                    ab.append(("s", 0.0 if R.random() < 0.4 else R.choice([0.5, 1.0, 2.0, 3.0, 4.0, 0.25, round(R.uniform(0, 6), 2)])))
+                elif x < 0.95:
+                    ab.append("pop")
+                else:
+                    ab.append(R.choice(["peek", "len", "now"]))
+            ab += ["pop"] * (3 * maxlen)
+            yield concretise(ab)
+            continue
         for _ in range(n):
             x = R.random()
             if x < 0.5:
@@ -802,14 +815,15 @@ def gen_motion(R):
     rate = R.choice([0.5, 1.0, 0.25, 0.1, 0.3])
     script = []
     for me in range(nn):
-        rules = [{"trig": ("init",), "nth": None, "acts": ([("goto",) + gen_sim.gen_pos(R, 10)] if R.random() < 0.8 else [])
+        pool = [gen_sim.gen_pos(R, 10) for _ in range(2)]       # targets a node is sent back to (revisits, abandoned legs resumed)
+        rules = [{"trig": ("init",), "nth": None, "acts": ([("goto",) + (R.choice(pool) if R.random() < 0.4 else gen_sim.gen_pos(R, 10))] if R.random() < 0.8 else [])
                   + ([("speed", R.choice([0.0, 0.5, 1.0, 2.0, 5.0, 10.0, 100.0, R.uniform(0, 20)]))] if R.random() < 0.6 else [])}]
         for _ in range(R.randint(0, 4)):
             acts = []
             for _ in range(R.randint(1, 2)):
                 x = R.random()
                 if x < 0.5:
-                    acts.append(("goto",) + (gen_sim.gen_pos(R, 10) if R.random() < 0.8 else tuple(float(v) for v in (R.randint(-3, 3), R.randint(-3, 3), R.randint(0, 2)))))
+                    acts.append(("goto",) + (R.choice(pool) if R.random() < 0.4 else gen_sim.gen_pos(R, 10) if R.random() < 0.8 else tuple(float(v) for v in (R.randint(-3, 3), R.randint(-3, 3), R.randint(0, 2)))))
                 elif x < 0.8:
                     acts.append(("speed", R.choice([0.0, 0.5, 1.0, 2.0, 5.0, 10.0, 100.0, R.uniform(0, 20)])))
                 elif x < 0.92:
